@@ -19,6 +19,7 @@ import Noodles.Io.DriverC12
 import Noodles.Bgzf.DriverC16
 import Noodles.Cram.DriverC08
 import Noodles.Cram.DriverC07
+import Noodles.Hostile.Driver
 namespace Noodles
 open Noodles.Wire
 
@@ -43,6 +44,7 @@ def dispatch (line : String) : String :=
   | "c16" :: rest => Bgzf.Async.handleC16 rest
   | "c08" :: rest => Cram.DriverC08.handle rest
   | "c07" :: rest => Cram.Drv.handleC07 rest
+  | "c15" :: rest => Hostile.handleC15 rest
   | _ => "bad-suite"
 
 end Noodles
